@@ -105,6 +105,8 @@ fn small_history(r: &mut Rng) -> (Vec<Op>, String) {
 pub fn run_c04(seed: u64, n: usize, out: &str) {
     let mut r = Rng::new(seed ^ 0xC04);
     let mut sink = Sink::new(out, "C04", 40);
+    #[cfg(feature = "float")]
+    { sink.runner = "C04f32".to_string(); }
     while sink.len() < n {
         let big = r.chance(0.2);
         let (ops, note) = if r.chance(0.1) { small_history(&mut r) } else { rand_history(&mut r, if big { 60 } else { 14 }) };
